@@ -603,6 +603,7 @@ func bigContainers(c *core.Ctx, idx int, mode int) {
 }
 
 var churnKeep [][]*int64
+var c02Churned = map[int]bool{}
 
 // gcChurn runs a garbage collection and then allocates tens of thousands of small objects, filled
 // with ones: memory that the collector wrongly took for dead is handed out again and overwritten
@@ -684,6 +685,17 @@ func checkWire(c *core.Ctx, tc *tcase, v reflect.Value, data []byte) {
 			}
 			if d := model.Diff(ref.Elem(), out.Elem(), "$"); d != "" {
 				rec.Violation("field-order", fmt.Sprintf("decoding depends on field order [%s]: %s\n  type %s\n  value %s\n  in order   %s\n  reordered  %s", tc.name, d, typeString(tc.typ), model.Show(v), hexHead(want), hexHead(sh)), caseExtra(tc, v, sh))
+				return
+			}
+			if c.Idx%5 == 3 && !c02Churned[c.Idx] {
+				// ... and what the documented bytes decode to is the value, also after a garbage collection
+				// and tens of thousands of small allocations
+				c02Churned[c.Idx] = true
+				gcChurn()
+				if d := model.Diff(tc.cfg.Normalise(v, "", true), ref.Elem(), "$"); d != "" {
+					rec.Violation("wire-format", fmt.Sprintf("what the documented encoding decodes to no longer equals the value after a garbage collection [%s]: %s\n  type %s\n  value %s\n  bytes %s", tc.name, d, typeString(tc.typ), model.Show(v), hexHead(want)), caseExtra(tc, v, want))
+				}
+				rec.Count("compared_after_gc", 1)
 			}
 		}
 	}
